@@ -164,7 +164,7 @@ func TestC05RoutingAndDrains(t *testing.T) {
 		"execute", "execute", "execute", "execute",
 		"sync", "sync", "sync", "sync", "syncCompleted", "syncCompleted",
 		"addDrain", "addDrain", "removeDrain", "removeDrain", "terminate", "cancelTerminate",
-		"cancelSync", "cancelStream", "killQueue", "syncDuplicate", "syncIdle", "raceDrain", "raceDrain",
+		"cancelSync", "cancelStream", "killQueue", "syncDuplicate", "syncIdle", "raceDrain", "raceDrain", "slowFetch", "slowFetch",
 		"advance", "advance", "advanceSmall", "tick",
 	}
 	p := &profile{
